@@ -3,7 +3,7 @@
 From Coq Require Import String.
 From Coq Require Import ZArith List Bool Arith Permutation Sorted.
 Import ListNotations.
-From FV.C08 Require Import Table Model Proofs ElemModel ElemProofs.
+From FV.C08 Require Import Table Model Proofs ElemModel ElemProofs Renumber RenumberProofs.
 From FV.C08.gen Require Import AttrCfg ElemTypes.
 
 (* a freshly constructed attribute (distinct ids) is one table *)
@@ -260,6 +260,61 @@ Example C08_collection_nonvacuous :
       [("hex"%string, [(25, [1; 2; 3; 4; 5; 6; 7; 8])]); ("polyhedron"%string, [(40, [11; 3; 7; 5; 2])])]%Z.
 Proof. do 2 eexists. vm_compute. repeat split; reflexivity. Qed.
 
+(* ---- colliding element ids: `_unique_element_ids` + `_update_self` again (Renumber.v) ---- *)
+(* the summary is defined exactly for distinct element ids *)
+Theorem C08_summary_defined_iff_distinct : forall (V : Type) (bs : @blocks V),
+  (exists s, update_self bs = Some s) <-> NoDup (ids (flatten bs)).
+Proof. intros V. exact (@update_self_defined V). Qed.
+
+(* one renumbering round: block j keeps its type and rows and has its ids
+   shifted by the number of elements in the blocks before it; after k rounds
+   by k times that amount *)
+Theorem C08_renumber_rounds : forall (V : Type) k (bs : @blocks V),
+     map fst (iter_r k bs) = map fst bs
+  /\ map (fun b => vals (snd b)) (iter_r k bs) = map (fun b => vals (snd b)) bs
+  /\ (forall j t b, nth_error bs j = Some (t, b) ->
+        nth_error (iter_r k bs) j = Some (t, shift (Z.of_nat k * size_before j bs) b)).
+Proof.
+  intros V k bs. destruct (iter_r_shape k bs) as [A [B _]]. split; [exact A|]. split; [exact B|].
+  apply iter_r_nth.
+Qed.
+
+(* the fuelled `_update_self`: what it returns is the summary of the blocks
+   renumbered the least number of times that makes the ids distinct - so that
+   summary lists every element of the renumbered blocks exactly once,
+   ascending, with id2index = enumerate; with read-only ids (pandas 3) nothing
+   is renumbered: the call raises unless the ids are distinct already *)
+Theorem C08_duplicate_ids_branch : forall (V : Type) w n (bs bs' : @blocks V) s,
+  update_self_fuel w n bs = Some (s, bs') ->
+  exists k, (k <= n)%nat /\ bs' = iter_r k bs
+    /\ (forall k', (k' < k)%nat -> ~ NoDup (ids (flatten (iter_r k' bs))))
+    /\ (w = false -> k = 0%nat)
+    /\ Permutation (flatten bs') (zip3 s) /\ NoDup (s_ids s)
+    /\ (List.length bs' <> 1%nat -> StronglySorted Z.lt (s_ids s))
+    /\ s_id2index s = enumerate (s_ids s).
+Proof.
+  intros V w n bs bs' s H. destruct (update_self_fuel_sound w n bs bs' s H) as [k [Hk [E [U [W Hmin]]]]].
+  destruct (summary_sorted_complete bs' s U) as [P [N [S [I _]]]].
+  exists k. split; [exact Hk|]. split; [exact E|]. split.
+  - intros k' Hk' ND. apply (update_self_defined (iter_r k' bs)) in ND. destruct ND as [s' Hs'].
+    rewrite (Hmin k' Hk') in Hs'. discriminate.
+  - repeat split; auto.
+Qed.
+
+Theorem C08_duplicate_ids_readonly : forall (V : Type) n (bs : @blocks V),
+  update_self_fuel false n bs = option_map (fun s => (s, bs)) (update_self bs).
+Proof. intros V. exact (@update_self_fuel_readonly V). Qed.
+
+(* non-vacuity: tet [1;3] and hex [1;2] collide; with writable ids two rounds
+   give hex [5;6] (one round gives [3;4], which still collides); read-only: raises *)
+Example C08_duplicate_ids_nonvacuous :
+  let bs : @blocks (list Z) := [(8%nat, [(1, [1;2;3;4]); (3, [2;3;4;5])]); (14%nat, [(1, [1]); (2, [2])])]%Z in
+  update_self bs = None /\
+  option_map (fun r => (s_ids (fst r), map (fun b => ids (snd b)) (snd r))) (update_self_fuel true 5 bs)
+    = Some ([1; 3; 5; 6], [[1; 3]; [5; 6]])%Z /\
+  update_self_fuel false 5 bs = None.
+Proof. vm_compute. repeat split; reflexivity. Qed.
+
 (* a missing refresh is a violation: one-step witnesses computed by the model *)
 Theorem C08_inv_step_refuted : forall c,
   parent_refreshes_data c && overwrite_uses_setter c && frame_setter_refreshes_id2index c
@@ -314,3 +369,4 @@ Print Assumptions C08_tree_decided.
 Print Assumptions C08_collection_tree_decided.
 Print Assumptions C08_collection_filter_exact.
 Print Assumptions C08_collection_filter_tree_decided.
+Print Assumptions C08_duplicate_ids_branch.
